@@ -381,7 +381,7 @@ class BaseSubscription:
                 matched.add(event.created_at < query.until)
             if query.tags:
                 for tagname, values in query.tags:
-                    matched.add(all(event.has_tag(tagname, values)))
+                    matched.add(event.has_tag(tagname, values)[1] is not None)
             if matched and all(matched):
                 return True
         return False
